@@ -117,6 +117,70 @@ def shared_callee(size: int = 4) -> Iterator[Tuple[Any, int]]:
     yield from core.skeletons(size, o)
 
 
+def counter_atom(slot: int, n: int = 2) -> Atom:
+    """A condition that is true the first ``n`` times it is evaluated (a counter in scratch slot
+    ``slot``): loops governed by it really iterate and then exit, so accepting runs take back edges."""
+    return [f"load {slot}", "int 1", "+", "dup", f"store {slot}", f"int {n}", "<="]
+
+
+def _while_slots(prog: Any) -> List[int]:
+    out: List[int] = []
+
+    def blk(b: Any) -> None:
+        for st in b:
+            if st[0] == "while":
+                if st[1][0] == "slot":
+                    out.append(st[1][1])
+                blk(st[3])
+            elif st[0] == "if":
+                blk(st[3])
+                if st[4] is not None:
+                    blk(st[4])
+
+    blk(prog[0])
+    for sb in prog[1]:
+        blk(sb)
+    return out
+
+
+def counted_loops(small: Sequence[Atom], tier: str, version: int = 8, free: Atom = FREE, max_subs: int = 1,
+                  kinds: Sequence[str] = ("assert", "ret", "ret1", "err", "if", "while", "call")) -> Iterator[str]:
+    """L6 - every skeleton with at least one loop (size <= 3 quick / 4 thorough, 0..max_subs subroutines) whose
+    loop conditions are counters (each loop iterates twice, then exits) x one tracked atom of the small
+    alphabet in one of the other slots (or none); subroutines before/after main; a loop that opens a
+    subroutine body also with the subroutine's own label as loop header.  Soundness spaces only (a
+    counter is a run-time condition, not a direct check)."""
+    seen: Set[bytes] = set()
+    n = 3 if tier == "quick" else 4
+    for nsubs in range(0, max_subs + 1):
+        o = core.Opts(kinds=kinds, cond_level=0, nsubs=nsubs)
+        for size in range(1, n + 1):
+            for prog, k in core.skeletons(size, o):
+                ws = _while_slots(prog)
+                if not ws:
+                    continue
+                others = [i for i in range(k) if i not in ws]
+                fills: List[List[Atom]] = []
+                base = [counter_atom(10 + i) if i in ws else free for i in range(k)]
+                fills.append(base)
+                alpha = small if size < n else small[:1]
+                for j in others:
+                    for a in alpha:
+                        f = list(base)
+                        f[j] = a
+                        fills.append(f)
+                has_subs = bool(prog[1])
+                entry_variants = (False, True) if any(sb and sb[0][0] == "while" for sb in prog[1]) else (False,)
+                for at in fills:
+                    for subs_first in (False, True) if has_subs else (False,):
+                        for el in entry_variants:
+                            src = core.render(prog, at, subs_first=subs_first, version=version, entry_loop=el)
+                            h = _h(src)
+                            if h not in seen:
+                                seen.add(h)
+                                yield src
+
+
 def layered(  # pylint: disable=too-many-arguments,too-many-locals,too-many-branches
     full: Sequence[Atom],
     small: Sequence[Atom],
